@@ -101,7 +101,7 @@ impl SubCheck for Witnesses {
         "witness_paths"
     }
     fn cases(&self, tier: Tier) -> u32 {
-        tier.pick(5000, 100000)
+        tier.pick(10000, 150000)
     }
     fn strategy(&self, tier: Tier) -> BoxedStrategy<GCase> {
         let mut p = GraphParams::small();
